@@ -17,6 +17,8 @@ where
     let result = async_std::task::spawn(task).into();
     #[cfg(feature = "async-dispatcher-runtime")]
     let result = async_dispatcher::spawn(task).into();
+    #[cfg(zmq_verif)]
+    let result = zmq_simrt::task::spawn(task).into();
 
     result
 }
@@ -52,6 +54,16 @@ impl From<tokio::task::JoinError> for JoinError {
     }
 }
 
+#[cfg(zmq_verif)]
+impl From<zmq_simrt::task::JoinError> for JoinError {
+    fn from(err: zmq_simrt::task::JoinError) -> Self {
+        match err {
+            zmq_simrt::task::JoinError::Cancelled => Self::Cancelled,
+            zmq_simrt::task::JoinError::Panic(p) => Self::Panic(p),
+        }
+    }
+}
+
 pub async fn sleep(duration: std::time::Duration) {
     #[cfg(feature = "tokio-runtime")]
     ::tokio::time::sleep(duration).await;
@@ -59,6 +71,8 @@ pub async fn sleep(duration: std::time::Duration) {
     ::async_std::task::sleep(duration).await;
     #[cfg(feature = "async-dispatcher-runtime")]
     ::async_dispatcher::sleep(duration).await;
+    #[cfg(zmq_verif)]
+    ::zmq_simrt::task::sleep(duration).await;
 }
 
 pub async fn timeout<F, T>(
@@ -74,6 +88,8 @@ where
     let result = ::async_std::future::timeout(duration, f).await?;
     #[cfg(feature = "async-dispatcher-runtime")]
     let result = ::async_dispatcher::timeout(duration, f).await?;
+    #[cfg(zmq_verif)]
+    let result = ::zmq_simrt::future::timeout(duration, f).await?;
 
     Ok(result)
 }
